@@ -14,7 +14,9 @@ CHECK = {
                             "shape_clustered", "corr_subset", "corr_permuted", "data_exact", "data_heavy_noise",
                             "angle_pi", "angle_zero"],
     "required_oracles": ["det_positive", "orthonormal", "exact.maps_source_onto_target",
-                         "noisy.agrees_with_kabsch_on_cloud", "noisy.residual_excess", "variants_agree"],
+                         "noisy.agrees_with_kabsch_on_cloud", "noisy.residual_excess", "variants_agree",
+                         "exact.recovers_rotation_matrix", "exact.recovers_translation", "variants_agree.rotation_matrix",
+                         "noisy.rotation_matrix_agrees_with_kabsch"],
     "rule": "case = (dim 2/3, float/double, n=3..500 correspondences, cloud shape {generic, coplanar exact/rotated, nearly "
             "coplanar 1e-12..1e-3, clustered, two-cluster, elongated, three points}, offset 0..100 spreads, rotation any axis "
             "angle 0..pi incl. 0, pi and their neighbourhoods, translation, noise {none, 1e-6..1e-2, 0.05..0.5 spreads}, "
